@@ -34,23 +34,24 @@ import (
 // exercised (quick tier; the thorough tier multiplies the case count by
 // 15 and the floors by 10).
 var floors = map[string]int{
-	"replay-40-OPEN":                       20,
-	"replay-40-OPEN_CONFIRM":               8,
-	"replay-40-CLOSE":                      10,
-	"replay-40-LOCK_NEW":                   8,
-	"replay-40-LOCK":                       5,
-	"replay-40-LOCKU":                      5,
-	"replay-40-OPEN_DOWNGRADE":             3,
-	"replay-after-unrelated-40":            20,
-	"misordered-40+2":                      15,
-	"misordered-40-1":                      15,
-	"diff-optype-40":                       20,
-	"diff-stateid-40":                      10,
-	"inflight-dup-40":                      20,
-	"inflight-two-or-more-waiters-40":      20,
-	"inflight-next-request-behind-open-40": 20,
-	"replay-40-CLOSE_OLD_STATEID":          3,
-	"resend-unconsumed-seqid-40":           5,
+	"replay-40-OPEN":                                  20,
+	"replay-40-OPEN_CONFIRM":                          8,
+	"replay-40-CLOSE":                                 10,
+	"replay-40-LOCK_NEW":                              8,
+	"replay-40-LOCK":                                  5,
+	"replay-40-LOCKU":                                 5,
+	"replay-40-OPEN_DOWNGRADE":                        3,
+	"replay-after-unrelated-40":                       20,
+	"misordered-40+2":                                 15,
+	"misordered-40-1":                                 15,
+	"diff-optype-40":                                  20,
+	"diff-stateid-40":                                 10,
+	"inflight-dup-40":                                 20,
+	"inflight-two-or-more-waiters-40":                 20,
+	"inflight-next-request-behind-open-40":            20,
+	"inflight-next-request-by-stateid-behind-open-40": 2,
+	"replay-40-CLOSE_OLD_STATEID":                     3,
+	"resend-unconsumed-seqid-40":                      5,
 
 	"replay-41-OPEN":                            10,
 	"replay-41-CLOSE":                           5,
